@@ -80,7 +80,84 @@ def directed_stores():
         model.AssetInformation(model.AssetKind.INSTANCE, global_asset_id=" asset ",
                                specific_asset_id=[model.SpecificAssetId(" n ", " v ")]), "urn:verif:c09:aas")
     return [("directed.shapes", model.DictObjectStore([sm])), ("directed.whitespace", model.DictObjectStore([ws, cd, aas])),
-            ("directed.arrays", directed_arrays()), ("directed.typed", directed_typed())]
+            ("directed.arrays", directed_arrays()), ("directed.typed", directed_typed()), ("directed.refs", directed_refs())]
+
+
+def directed_refs():
+    """model references ending in a key of EVERY key type the metamodel allows there (each identifiable alone; below a
+    submodel each referable non-identifiable type; the generic FragmentReference after File and after Blob; an index
+    after SubmodelElementList), external references ending in either generic key type - each of them once in every
+    place of the serialisations that holds a reference of that kind"""
+    from basyx.aas import model
+    from basyx.aas.model import datatypes as dt
+    KT = model.KeyTypes
+    SM = "urn:verif:c09:refs:sm"
+
+    def k(t, v):
+        return model.Key(t, v)
+    chains = []      # [(name, key tuple)]
+    for t in KT:
+        if t.is_aas_identifiable:
+            chains.append((t.name.lower(), (k(t, "urn:verif:c09:refs:" + t.name.lower()),)))
+        elif t.is_fragment_key_element and not t.is_generic_fragment_key:
+            chains.append((t.name.lower(), (k(KT.SUBMODEL, SM), k(t, "e"))))
+    chains.append(("file_fragment", (k(KT.SUBMODEL, SM), k(KT.FILE, "f"), k(KT.FRAGMENT_REFERENCE, "page=7"))))
+    chains.append(("blob_fragment", (k(KT.SUBMODEL, SM), k(KT.SUBMODEL_ELEMENT_COLLECTION, "c"), k(KT.BLOB, "b"),
+                                     k(KT.FRAGMENT_REFERENCE, "#x"))))
+    chains.append(("list_index", (k(KT.SUBMODEL, SM), k(KT.SUBMODEL_ELEMENT_LIST, "l"), k(KT.PROPERTY, "0"))))
+    chains.append(("list_index_fragment", (k(KT.SUBMODEL, SM), k(KT.SUBMODEL_ELEMENT_LIST, "l"), k(KT.FILE, "2"),
+                                           k(KT.FRAGMENT_REFERENCE, "a b"))))
+
+    def mref(keys, rs=None):
+        return model.ModelReference(keys, model.Referable, rs)
+    ext = [("global", (k(KT.GLOBAL_REFERENCE, "urn:g"),)),
+           ("global_fragment", (k(KT.GLOBAL_REFERENCE, "urn:g"), k(KT.FRAGMENT_REFERENCE, "frag"))),
+           ("global_global", (k(KT.GLOBAL_REFERENCE, "urn:g"), k(KT.GLOBAL_REFERENCE, "urn:h"))),
+           ("global_mixed", (k(KT.GLOBAL_REFERENCE, "urn:g"), k(KT.SUBMODEL, "urn:s"), k(KT.FRAGMENT_REFERENCE, "frag")))]
+    sm = model.Submodel(SM, id_short="refs")
+    sms = []
+    # (a) one ReferenceElement per chain, the same reference again as its semantic id (eight to a submodel: small
+    #     identifiables make cheap damage cases)
+    elems = [model.ReferenceElement("ref_" + name, mref(keys), semantic_id=mref(keys)) for name, keys in chains]
+    elems += [model.ReferenceElement("ext_" + name, model.ExternalReference(keys), semantic_id=model.ExternalReference(keys))
+              for name, keys in ext]
+    for i, e in enumerate(elems):
+        if i % 8 == 0 and i:
+            sms.append(model.Submodel(f"{SM}:{i // 8}", id_short=f"refs{i // 8}"))
+        (sms[-1] if i >= 8 else sm).submodel_element.add(e)
+    # (b) every other place, with the chains that are special in some table of the readers
+    special = [c for c in chains if c[0] in ("file_fragment", "blob_fragment", "list_index_fragment", "submodel_element")]
+    for name, keys in special:
+        r = mref(keys)
+        nested = mref(keys, model.ExternalReference(ext[1][1], mref(keys)))
+        smc = model.Submodel(SM + ":" + name, id_short="at_" + name)     # (small identifiables: cheap damage cases)
+        sms.append(smc)
+        smc.submodel_element.add(model.RelationshipElement("rel", r, mref(chains[0][1])))
+        smc.submodel_element.add(model.RelationshipElement("rel2", model.ExternalReference(ext[0][1]), r))
+        smc.submodel_element.add(model.AnnotatedRelationshipElement("arel", r, r, annotation=[model.Property("a", dt.Int, 1)]))
+        smc.submodel_element.add(model.BasicEventElement("ev", r, model.Direction.INPUT, model.StateOfEvent.OFF, message_broker=r))
+        smc.submodel_element.add(model.Property("p", dt.Int, 1, value_id=r, semantic_id=r, supplemental_semantic_id=[r, nested],
+                                     qualifier=[model.Qualifier("q", dt.Int, 1, value_id=r, semantic_id=r)],
+                                     extension=[model.Extension("x", dt.Int, 1, refers_to=[r], semantic_id=r)]))
+        smc.submodel_element.add(model.MultiLanguageProperty("m", value=model.MultiLanguageTextType({"en": "t"}), value_id=r))
+        smc.submodel_element.add(model.ReferenceElement("n", nested))
+        smc.submodel_element.add(model.SubmodelElementList("l", model.Capability, semantic_id_list_element=r))
+        smc.submodel_element.add(model.Entity("ent", model.EntityType.SELF_MANAGED_ENTITY, global_asset_id="urn:g",
+                                   specific_asset_id=[model.SpecificAssetId("n", "v", model.ExternalReference(ext[1][1]),
+                                                                            semantic_id=r)]))
+    frag = mref(chains[-4][1])
+    cd = model.ConceptDescription("urn:verif:c09:refs:cd", id_short="cd", is_case_of={frag, model.ExternalReference(ext[1][1])},
+                                  embedded_data_specifications=[model.EmbeddedDataSpecification(
+                                      model.ExternalReference(ext[1][1]), model.DataSpecificationIEC61360(
+                                          model.PreferredNameTypeIEC61360({"en": "n"}), unit_id=frag,
+                                          value_list={model.ValueReferencePair("v", frag)}))])
+    aas = model.AssetAdministrationShell(
+        model.AssetInformation(model.AssetKind.INSTANCE, global_asset_id="urn:asset"), "urn:verif:c09:refs:aas",
+        submodel={model.ModelReference((k(KT.SUBMODEL, SM),), model.Submodel)},
+        derived_from=model.ModelReference((k(KT.ASSET_ADMINISTRATION_SHELL, "urn:verif:c09:refs:parent"),),
+                                          model.AssetAdministrationShell),
+        extension=[model.Extension("x", dt.String, "v", refers_to=[frag, mref(chains[-3][1])])])
+    return model.DictObjectStore([sm, cd, aas] + sms)
 
 
 def directed_typed():
@@ -242,6 +319,16 @@ def build_sources(rng, n_gen, size_lo=2, size_hi=4):
     sources, notes, prefails = [], [], []
     if directed_err:
         notes.append(directed_err)
+    # the objects every document was written from, canonicalised in memory (no reader involved): what an undamaged
+    # identifiable must come back as.  The corpus documents are text; their stores are rebuilt for the comparison only.
+    origs = {name: canon_plain(st) for name, st in stores}
+    if corpus_docs:
+        try:
+            for name, st in directed_stores():
+                origs["corpus." + name] = canon_plain(st)
+        except Exception as e:  # noqa
+            notes.append(f"directed stores could not be rebuilt ({type(e).__name__}: {e}); corpus documents are compared "
+                         f"with their strict read only")
     docs = []
     for name, st in stores:
         for fmt in ("json", "xml"):
@@ -261,6 +348,11 @@ def build_sources(rng, n_gen, size_lo=2, size_hi=4):
                                  f"failsafe read of an UNDAMAGED valid document ({name}) raised "
                                  f"{type(r1).__name__}: {str(r1)[:300]}", data))
                 continue
+            if name in origs:
+                f = base_oracle(fmt, data, origs[name], name)
+                if f:
+                    prefails.append((fmt, f[0], f[1], data, origs[name]))
+                    continue
             if k2 != "ok":
                 if not D.documented(r2):
                     prefails.append((fmt, "strict-raises:" + type(r2).__name__,
@@ -288,6 +380,71 @@ def build_sources(rng, n_gen, size_lo=2, size_hi=4):
                             "base_stripped": D.canon_of(rs),
                             "directed": name.startswith("directed.") or name.startswith("corpus.")})
     return sources, notes, prefails
+
+
+def canon_plain(store):
+    """{id: canonical form without ModelReference.type} - the part of an object that the serialisations carry (the Python
+    typing aid `type` of a model reference is not written; each reader re-derives it from the keys in its own way)"""
+    res = {}
+    for o in store:
+        try:
+            res[o.id] = json.dumps(aasgen._drop_type(aasgen.canon(o)), sort_keys=True, default=str)
+        except Exception as e:  # noqa
+            res[o.id] = f"<uncanonical {type(e).__name__}: {e}>"
+    return res
+
+
+IEC_STRS = ("unit", "source_of_definition", "symbol", "value_format")
+
+
+def _xml_text_layer(canon_json):
+    """XML has no spelling for an empty optional xs:string that differs from an absent one where the schema demands
+    minLength 1; the only optional strings of the metamodel that the model classes let be '' are the four of
+    DataSpecificationIEC61360 (aasgen kind ostr0).  '' and None are the same value there (as in C04)."""
+    def go(v):
+        if isinstance(v, list):
+            return [go(x) for x in v]
+        if isinstance(v, dict):
+            out = {k: go(x) for k, x in v.items()}
+            if out.get("_class") == "DataSpecificationIEC61360":
+                for a in IEC_STRS:
+                    if out.get(a) == "":
+                        out[a] = None
+            return out
+        return v
+    if not canon_json.startswith("{"):
+        return canon_json
+    return json.dumps(go(json.loads(canon_json)), sort_keys=True, default=str)
+
+
+def base_oracle(fmt, data, expected, name="?"):
+    """the failsafe read of an UNDAMAGED document that the SDK writer produced from a model store must return every
+    identifiable of that store unchanged; `expected` = canon_plain of the store the document was written from (computed
+    on the in-memory objects, no reader involved).  -> None | (kind, text)"""
+    k1, r1 = D.run_reader(fmt, data, True)
+    if k1 != "ok":
+        return ("failsafe-raises:" + type(r1).__name__, f"failsafe read of an UNDAMAGED valid document ({name}) raised "
+                f"{type(r1).__name__}: {str(r1)[:300]}")
+    got = canon_plain(r1)
+    if fmt == "xml":
+        expected = {i: _xml_text_layer(c) for i, c in expected.items()}
+        got = {i: _xml_text_layer(c) for i, c in got.items()}
+    for i in sorted(expected, key=str):
+        if i not in got:
+            return ("undamaged-dropped", f"UNDAMAGED valid document ({name}): identifiable {i!r} of the store it was written "
+                    f"from is missing from the failsafe result")
+        if got[i] != expected[i]:
+            try:
+                d = str(aasgen.diff(json.loads(expected[i]), json.loads(got[i])))
+            except Exception:  # noqa
+                d = "(no structural diff)"
+            return ("undamaged-changed", f"UNDAMAGED valid document ({name}): identifiable {i!r} was read differently from "
+                    f"the object it was written from: {d[:400]}")
+    extra = [i for i in got if i not in expected]
+    if extra:
+        return ("extra-object", f"UNDAMAGED valid document ({name}): failsafe result contains identifiers {extra[:3]!r} "
+                f"that are not in the store it was written from")
+    return None
 
 
 def serialise(fmt, doc):
